@@ -69,6 +69,16 @@ def build_harness():
     return VH
 
 
+def load_scaled(ms):
+    """A per-call deadline in ms, stretched when other work keeps the machine busier than its cores (the 1-minute load average
+    per core, at least 1): a busy machine must not look like a call that does not terminate."""
+    try:
+        factor = max(1.0, os.getloadavg()[0] / (os.cpu_count() or 1))
+    except OSError:
+        factor = 1.0
+    return str(int(ms * min(factor, 12.0)))
+
+
 def run(cmd, cwd=None, env=None, timeout=None, check=True):
     p = subprocess.run(cmd, cwd=cwd, env=env, stdout=subprocess.PIPE, stderr=subprocess.STDOUT,
                        text=True, timeout=timeout)
